@@ -152,6 +152,11 @@ DEFAULTS = [
     ("State.__init__", "window", 1, "window 1 by default", ("C18",)),
     ("State.__init__", "stride", None, "no stride by default", ("C18",)),
     ("LimitOrderBook.__init__", "time", None, "no time", ("C14",)),
+    ("LogReturn.__init__", "scale", 1.0, "no rescaling by default", ("C07",)),
+    ("LogReturn.__init__", "clip", 2.0, "reward clipping", ("C07",)),
+    ("LogReturn.__init__", "risk_aversion", 0.0, "no risk aversion by default", ("C07",)),
+    ("TrackRecord.net_liquidation_value", "before_rebalancing", True, "pre-trade values by default", ("C07",)),
+    ("TrackRecord.weights_actual", "before_rebalancing", True, "pre-trade values by default", ("C07",)),
     ("PandasMetrics.value_at_risk", "quantile", 0.025, "VaR level", ("C16",)),
     ("PandasMetrics.expected_shortfall", "quantile", 0.025, "ES level", ("C16",)),
     ("PandasMetrics.excess_cagr", "over", 0.0, "zero hurdle", ("C16",)),
@@ -217,3 +222,62 @@ def allocation_not_shadowed(ck, an, prefix):
         ck.check(not over, "MRO", f"{prefix}.allocation-is-a-plain-dict", c.name, c.loc, f"{c.name} does not override dict behaviour",
                  f"{c.name} overrides {over}: membership tests, lookups and iteration in make_trades / __sub__ no longer mean what they say", construct=f"{c.name}.{over[0] if over else ''}")
     ck.check(base.ext_bases == ["dict"] or base.ext_bases == ["builtins.dict"], "MRO", f"{prefix}.allocation-base", "_Allocation", base.loc, "_Allocation subclasses dict", f"_Allocation bases: {base.ext_bases}", construct="class _Allocation(dict)")
+
+
+# ---------------------------------------------------------------------------
+# Reviewed state: the data attributes whose value may influence a mechanism.
+# A data attribute that is read somewhere in the package but is not listed here
+# is new state (a memo, a cache, a flag) that the rules have not reviewed.
+# ---------------------------------------------------------------------------
+REVIEWED_STATE = {
+    "Broker": ({"_epsilon", "_holdings_margins", "_holdings_quantity", "_last_accrual", "_last_marking_to_market_price", "base_currency", "exchange", "fees", "track_record", "_initial_deposit"},
+               ("C01", "C03", "C05", "C06", "C07", "C09", "C13")),
+    "Transmitter": ({"_current_time", "_folds", "_markov_reset", "_partition_latent", "_partition_nonlatent", "_step_nr", "_steps", "_warmup", "events", "timesteps", "_fold_name", "_start_date", "_end_date"},
+                    ("C02", "C04", "C08", "C10", "C15")),
+    "TradingEnv": ({"_broker_fees", "_done", "_episode_length", "_events_latent", "_events_nonlatent", "_initial_cash", "_last_event", "_now", "_observers", "_queue_actions", "_real_time", "_reward", "_sampling_span",
+                    "_steps_delay", "_transmitter", "_verify_state", "_visits", "action_space", "broker", "exchange", "metadata", "observation_space", "state", "_latency", "transformer", "X", "Y", "start", "end"},
+                   ("C02", "C04", "C07", "C08", "C09", "C10", "C15", "C17", "C18")),
+    "Rebalancing": ({"absolute", "allocation", "context_post", "context_pre", "fractional", "margin", "profit_on_idle_cash", "time", "trades"}, ("C03", "C07", "C11", "C12", "C13", "C17")),
+    "FutureChain": ({"_last_trading_dates", "_month", "contracts", "now"}, ("C11", "C14", "C19")),
+    "Future": ({"_symbol", "_symbol_short", "exists_since", "exists_until", "expiry", "last_trading_date", "month_codes", "now", "freq", "multiplier", "margin_requirement", "cash_requirement"}, ("C11", "C19")),
+    "LimitOrderBook": ({"ask_price", "ask_size", "bid_price", "bid_size", "history", "is_alive", "time"}, ("C01", "C05", "C13", "C14")),
+    "Exchange": ({"_books", "last_update"}, ("C01", "C13", "C14", "C11")),
+    "TrackRecord": ({"_nr_steps_to_burn", "_rebalancing", "_time", "_trading_started", "benchmark", "name", "risk_free", "fold", "state_history"}, ("C07",)),
+    "Trade": ({"acq_price", "contract", "cost_of_cash", "cost_of_commissions", "cost_of_spread", "notional", "quantity", "time", "bid_price", "ask_price"}, ("C01", "C12", "C13")),
+    "PortfolioSpace": ({"_as_weights", "_fractional", "_margin", "base_currency", "contracts", "_allocations", "dtype", "high", "low", "shape", "n"}, ("C08", "C12", "C17")),
+    "State": ({"history", "last_event", "queue", "stride", "names", "space", "features", "save", "exchange", "broker", "action_space", "last_update", "_cache", "_cache_enabled", "_nr_callbacks", "_transform_features",
+               "_verify_features", "_init_args", "_init_kwargs", "_observed_events", "name"}, ("C02", "C10", "C18")),
+    "_Allocation": (set(), ("C03", "C12", "C17")),
+    "IBrokerFees": ({"interest_rate", "markup", "proportional", "fixed"}, ("C01", "C06")),
+    "LogReturn": ({"clip", "risk_aversion", "scale"}, ("C07",)),
+}
+
+
+def state_dependencies(ck, an, prop):
+    n = 0
+    for cname, (reviewed, props) in REVIEWED_STATE.items():
+        if prop not in props:
+            continue
+        c = an.prog.cls(cname)
+        fam = [c] + an.prog.subclasses(c)
+        known = set(reviewed)
+        for k in fam + an.prog.mro(c):
+            known |= set(k.methods) | set(k.class_attrs) | set(k.class_annots)
+        for f in an.functions():
+            for e in an.fa(f).effects():
+                if e.kind != "R" or e.attr.startswith("__"):
+                    continue
+                par = getattr(e.node, "_parent", None)
+                if isinstance(par, ast.Call) and par.func is e.node:
+                    continue        # a method call (possibly inherited from an external base), not a data attribute
+                owners = [o.replace("class:", "") for o in e.owner.split("|")]
+                if not any(o in {k.name for k in fam} for o in owners):
+                    continue
+                n += 1
+                if e.attr not in known:
+                    ck.fail("DEP", "S0.new-state-dependency", f.short, e.loc,
+                            f"{f.short} reads {cname}.{e.attr}, a data attribute that is not part of the reviewed state of {cname}: a memo / cache / flag now influences the result "
+                            f"(reviewed: {sorted(reviewed)[:12]}...)", construct=stmt_text(e.node))
+    if n:
+        ck.ok("DEP", "S0.new-state-dependency", "package", "tradingenv/", f"{n} attribute reads of the mechanism classes stay within the reviewed state", construct="reviewed state")
+    return n
